@@ -344,6 +344,14 @@ def rule_tl(ctx):
         A.is_name(calls[0].func.value, 'rng_state')
     rep.ob('TL', K.key(base, 'random_choice', 'choice(len(self),size=size,replace=replace)-on-the-given-rng'), ok, fn,
            '' if ok else 'sampling must draw indices with rng_state.choice(len(self), size=size, replace=replace)')
+    # the names handed to choice() still hold what the caller passed: no parameter is rebound on the way
+    params = [x.arg for x in fn.args.args + fn.args.kwonlyargs][1:]
+    rebound = sorted({t for n in A.walk_local(fn) for t in (
+        [x for tg in n.targets for x in A.name_targets(tg)] if isinstance(n, ast.Assign) else
+        [n.target.id] if isinstance(n, (ast.AugAssign, ast.AnnAssign)) and isinstance(n.target, ast.Name) else []) if t in params})
+    rep.ob('TL', K.key(base, 'random_choice', 'parameters-reach-choice()-unchanged'), not rebound, fn,
+           '' if not rebound else 'parameter(s) %s are overwritten before the draw: e.g. a request without replacement is '
+           'answered with replacement (an example is chosen twice)' % rebound)
     d = flow.signature(fn)['defaults'].get('replace')
     ok = A.is_const(d, False)
     rep.ob('TL', K.key(base, 'random_choice', 'default-without-replacement'), ok, fn, '')
